@@ -10,7 +10,7 @@
 (* it masks.  Cases outside all classes are the envelope on which the      *)
 (* whole-machine properties are claimed at HEAD.                           *)
 (***************************************************************************)
-EXTENDS RV32
+EXTENDS RV32, FiniteSets
 
 LineOf(a) == a \div 64
 Ev(fin) == fin.ev
@@ -142,6 +142,14 @@ LaterFlushAfterStoreMiss(prog, fin) ==
                          /\ \E e \in 1 .. (k - 1) : fin.ev[e].t
                          /\ \E j \in 1 .. (k - 1) : k - j <= 310 /\ StoreMissAt(prog, fin, j)
 
+(* F05a (MVP-8, >= 2 cores): when more than the 32 lines of the shared L3 are touched  *)
+(* and lines are dirty in the L1s, an L3 eviction can race with the write-back of an   *)
+(* L1 sub-line: the snoop panics 'memory address should exist'.  Masks: runs that      *)
+(* touch more than 32 distinct 128-byte lines and execute at least one store.          *)
+L3Overflow(prog, fin) ==
+  /\ \E k \in 1 .. N(fin) : IsStoreAt(prog, fin, k)
+  /\ Cardinality({fin.ev[k].a \div 128 : k \in {x \in 1 .. N(fin) : fin.ev[x].a >= 0}}) > 32
+
 Tags(prog, fin) ==
   (IF RetAfterStoreMiss(prog, fin) THEN {"ret_after_store_miss"} ELSE {})
   \cup (IF RetDropsInflight(prog, fin) THEN {"ret_drops_inflight"} ELSE {})
@@ -155,4 +163,5 @@ Tags(prog, fin) ==
   \cup (IF WarRenamed(prog, fin) THEN {"war_renamed"} ELSE {})
   \cup (IF ShadowOfSlowBranch(prog, fin) THEN {"shadow_of_slow_branch"} ELSE {})
   \cup (IF LaterFlushAfterStoreMiss(prog, fin) THEN {"later_flush_after_store_miss"} ELSE {})
+  \cup (IF N(fin) > 150 /\ L3Overflow(prog, fin) THEN {"l3_overflow_with_stores"} ELSE {})
 =======================================================================
